@@ -153,12 +153,17 @@ CHECKS["C16"] = {
     "technique": "exhaustive history exploration where every node works on copies: parents re-observed after their subtree, queries/normalize/minimize compared by exported meaning, and direct/abstract_domain/abstract_domain_ref flavours run in lock step",
     "design_ref": "DESIGN.md §2 C16",
     "jobs": [{"bin": "e3_hist", "args": ["--mode", "dfs"], "deadline": {"quick": 300, "thorough": 1200}},
-             {"bin": "e3_hist", "args": ["--mode", "lockstep"], "deadline": {"quick": 300, "thorough": 1200}}],
+             {"bin": "e3_hist", "args": ["--mode", "lockstep"], "deadline": {"quick": 300, "thorough": 1200}},
+             {"bin": "e3_hist", "args": ["--mode", "linear"], "deadline": {"quick": 200, "thorough": 900}}],
     "rule": ("the C03 history space; every child operates on a copy (copy construction) of its parent; after the whole subtree of a node "
              "returned, the parent's printed form and the solution set of its exported constraints/intervals over the value box must be unchanged "
              "(no sharing leak); query_all / normalize / minimize must leave that solution set unchanged; lock step: the same history on the "
              "direct domain type, on abstract_domain<V>(D) and on abstract_domain_ref<V>(D) must give equal bottomness, intervals and solution sets "
-             "after every step (extended alphabet, depth 2 / 3)."),
+             "after every step (extended alphabet, depth 2 / 3). "
+             "Linear job: every sequence of length 5 (6) over {x:=0, x:=x+1, y:=2, y:=x, assume(x<=0), assume(x>=1), forget(x), join, widening, "
+             "r1:=r0, swap} is replayed from scratch IN PLACE on one object per flavour, so that no copy is alive except those the history makes "
+             "(the copy-on-write wrapper is then the sole owner of its state); the three flavours must agree after every step (intervals, "
+             "split_dbm, term_int (, split_oct, bool_int))."),
     "assumptions": _E3_ASSUME + ["meaning = solution set of exported linear constraints and intervals over the box; widening results are only required to be sound"],
     "level_text": "Complete enumeration of histories within the stated bounds on the real domains and wrappers.",
     "level_note": "Semantic (not structural) comparison; representation differences that do not change the exported meaning are not flagged.",
